@@ -122,6 +122,59 @@ func c11L1(r *Run, rep *core.Report) {
 				rep.Check(worst[ret] == "", "C11.L1", fmt.Sprintf("%s exit#%d (%s)", cf.Name, ords[ret], cls[ret]), r.P.InstrPos(ret), "result roles and map effect equal the operation contract for this class", worst[ret])
 			}
 		}
+		// wrappers hand back what the locked operation returned: every result of a value-returning wrapper is the
+		// corresponding result of its call into the compute core (or of the wrapper it delegates to) - never a value read
+		// before the lock was taken (two concurrent callers would both be told they removed / replaced the same entry)
+		for _, name := range []string{"LoadOrStore", "LoadAndStore", "LoadOrCompute", "Compute", "LoadAndDelete"} {
+			wf := mm.Methods[name]
+			if wf == nil || wf.Signature.Results().Len() == 0 {
+				continue
+			}
+			bad := ""
+			nRet := 0
+			core.Instrs(wf, func(in ssa.Instruction) {
+				ret, ok := in.(*ssa.Return)
+				if !ok {
+					return
+				}
+				nRet++
+				for i, res := range ret.Results {
+					v := core.StripConv(res)
+					// named results spilled to cells: the value stored last is not tracked - take the direct forms only
+					ex, isEx := v.(*ssa.Extract)
+					okRes := false
+					if isEx && ex.Index == i {
+						if call, isCall := ex.Tuple.(*ssa.Call); isCall {
+							cal := core.Callee(call)
+							if cal == mm.Core {
+								okRes = true
+							}
+							if c2, _ := coreCallOf(mm, cal, 0); c2 != nil && cal != wf {
+								okRes = true // delegation to another wrapper
+							}
+						}
+					}
+					// a lock-free miss: 'if v, ok := m.Load(key); !ok { return v, false }' - an absent key needs no lock
+					if !okRes && isEx {
+						if call, isCall := ex.Tuple.(*ssa.Call); isCall && core.Callee(call) == mm.Methods["Load"] && onMissEdge(ret.Block(), call) {
+							okRes = true
+						}
+					}
+					if c, isC := v.(*ssa.Const); !okRes && isC {
+						if b := ret.Block(); len(b.Preds) == 1 && missEdgeOfAnyLoad(mm, b) {
+							okRes = true
+						}
+						_ = c
+					}
+					if !okRes && bad == "" {
+						bad = fmt.Sprintf("result #%d returned at %s is not the compute core's result for this call (it was obtained some other way, e.g. by an earlier lock-free read)", i, r.P.InstrPos(ret))
+					}
+				}
+			})
+			if nRet > 0 {
+				rep.Check(bad == "", "C11.L1", fn(wf)+" returns the locked operation's results", r.P.Pos(wf.Pos()), "every result is the compute core's result", bad)
+			}
+		}
 		// wrapper adapters: (value, delete) contract
 		want := map[string]string{"Store": "arg,false", "LoadAndStore": "arg,false", "LoadOrStore": "arg,false", "LoadOrCompute": "call,false", "LoadAndDelete": "old,true", "Delete": "old,true"}
 		for name, w := range want {
@@ -1226,4 +1279,46 @@ func helperInlineOrWalk(r *Run) func(*ssa.Function, ssa.CallInstruction) bool {
 		}
 		return false
 	}
+}
+
+// onMissEdge: block b is entered only through the 'not found' edge of a test of the second result of the lookup call.
+func onMissEdge(b *ssa.BasicBlock, load *ssa.Call) bool {
+	if len(b.Preds) != 1 {
+		return false
+	}
+	p := b.Preds[0]
+	iff, ok := p.Instrs[len(p.Instrs)-1].(*ssa.If)
+	if !ok {
+		return false
+	}
+	cond := iff.Cond
+	neg := false
+	for {
+		if u, isU := cond.(*ssa.UnOp); isU && u.Op == token.NOT {
+			neg = !neg
+			cond = u.X
+			continue
+		}
+		break
+	}
+	ex, isEx := cond.(*ssa.Extract)
+	if !isEx || ex.Tuple != ssa.Value(load) || ex.Index != 1 {
+		return false
+	}
+	// ok true on edge 0 unless negated; the miss edge is the other one
+	missIdx := 1
+	if neg {
+		missIdx = 0
+	}
+	return p.Succs[missIdx] == b
+}
+
+func missEdgeOfAnyLoad(mm *core.MapModel, b *ssa.BasicBlock) bool {
+	found := false
+	core.Instrs(b.Parent(), func(in ssa.Instruction) {
+		if c, ok := in.(*ssa.Call); ok && core.Callee(c) == mm.Methods["Load"] && onMissEdge(b, c) {
+			found = true
+		}
+	})
+	return found
 }
